@@ -50,7 +50,7 @@ type World struct {
 	roMemo          map[*ssa.Function]bool
 	// sinkAliases: further loads of the same slice element in one iteration (mustSink)
 	sinkAliases map[ssa.Value][]ssa.Value
-	errIsMemo int // errorsIsIsIdentity: 0 unknown, 1 yes, -1 no
+	errIsMemo   int                // errorsIsIsIdentity: 0 unknown, 1 yes, -1 no
 	sinkCarrier map[ssa.Value]bool // carriers being followed by mustSink (cycle guard)
 	// mayScope: callers considered when mayCanons resolves a helper parameter (nil: all)
 	mayScope map[*ssa.Function]bool
